@@ -21,7 +21,16 @@ LongPtrs == {<<47>> \o [i \in 1..20 |-> IF i = 1 THEN 49 ELSE 48], <<47, 49, 56,
 
 \* index tokens that do not fit into 32 / 64 bits: they designate nothing, whatever they are congruent to (generated: 2^64+j, 2^32+j, 2^31.., 2^63.., ...)
 BigIndexPtrs == {<<47, 49, 56, 52, 52, 54, 55, 52, 52, 48, 55, 51, 55, 48, 57, 53, 53, 49, 54, 49, 54>>, <<47, 49, 56, 52, 52, 54, 55, 52, 52, 48, 55, 51, 55, 48, 57, 53, 53, 49, 54, 49, 55>>, <<47, 49, 56, 52, 52, 54, 55, 52, 52, 48, 55, 51, 55, 48, 57, 53, 53, 49, 54, 49, 56>>, <<47, 49, 56, 52, 52, 54, 55, 52, 52, 48, 55, 51, 55, 48, 57, 53, 53, 49, 54, 49, 57>>, <<47, 49, 56, 52, 52, 54, 55, 52, 52, 48, 55, 51, 55, 48, 57, 53, 53, 49, 54, 50, 48>>, <<47, 49, 56, 52, 52, 54, 55, 52, 52, 48, 55, 51, 55, 48, 57, 53, 53, 49, 54, 50, 49>>, <<47, 49, 56, 52, 52, 54, 55, 52, 52, 48, 55, 51, 55, 48, 57, 53, 53, 49, 54, 50, 50>>, <<47, 49, 56, 52, 52, 54, 55, 52, 52, 48, 55, 51, 55, 48, 57, 53, 53, 49, 54, 50, 51>>, <<47, 49, 56, 52, 52, 54, 55, 52, 52, 48, 55, 51, 55, 48, 57, 53, 53, 49, 54, 50, 52>>, <<47, 49, 56, 52, 52, 54, 55, 52, 52, 48, 55, 51, 55, 48, 57, 53, 53, 49, 54, 50, 53>>, <<47, 49, 56, 52, 52, 54, 55, 52, 52, 48, 55, 51, 55, 48, 57, 53, 53, 49, 54, 50, 54>>, <<47, 49, 56, 52, 52, 54, 55, 52, 52, 48, 55, 51, 55, 48, 57, 53, 53, 49, 54, 50, 55>>, <<47, 49, 56, 52, 52, 54, 55, 52, 52, 48, 55, 51, 55, 48, 57, 53, 53, 49, 54, 50, 56>>, <<47, 52, 50, 57, 52, 57, 54, 55, 50, 57, 54>>, <<47, 52, 50, 57, 52, 57, 54, 55, 50, 57, 55>>, <<47, 52, 50, 57, 52, 57, 54, 55, 50, 57, 56>>, <<47, 52, 50, 57, 52, 57, 54, 55, 50, 57, 57>>, <<47, 50, 49, 52, 55, 52, 56, 51, 54, 52, 56>>, <<47, 50, 49, 52, 55, 52, 56, 51, 54, 52, 57>>, <<47, 57, 50, 50, 51, 51, 55, 50, 48, 51, 54, 56, 53, 52, 55, 55, 53, 56, 48, 56>>, <<47, 57, 50, 50, 51, 51, 55, 50, 48, 51, 54, 56, 53, 52, 55, 55, 53, 56, 49, 50>>, <<47, 53, 53, 51, 52, 48, 50, 51, 50, 50, 50, 49, 49, 50, 56, 54, 53, 52, 56, 53, 51>>, <<47, 51, 54, 56, 57, 51, 52, 56, 56, 49, 52, 55, 52, 49, 57, 49, 48, 51, 50, 52, 49>>, <<47, 57, 57, 57, 57, 57, 57, 57, 57, 57, 57, 57, 57, 57, 57, 57, 57, 57, 57, 57, 57>>, <<47, 49, 56, 52, 52, 54, 55, 52, 52, 48, 55, 51, 55, 48, 57, 53, 53, 49, 54, 49, 53>>, <<47, 52, 50, 57, 52, 57, 54, 55, 50, 57, 53>>, <<47, 48, 48>>, <<47, 49, 101, 48>>, <<47, 49, 48, 47, 49, 56, 52, 52, 54, 55, 52, 52, 48, 55, 51, 55, 48, 57, 53, 53, 49, 54, 49, 55>>, <<47, 49, 48, 47, 52, 50, 57, 52, 57, 54, 55, 50, 57, 54>>, <<47, 49, 48, 47, 49, 56, 52, 52, 54, 55, 52, 52, 48, 55, 51, 55, 48, 57, 53, 53, 49, 54, 50, 54>>}
-Init == doc \in Docs /\ ptr = <<>> /\ phase = 0
+\* tokens of 254 ... 2049 raw bytes whose escape starts at every offset near those lengths: member names a...a/b under object, array and scalar parents
+TokLens == IF MaxLen >= 6 THEN {255, 256, 257, 1022, 1023, 1024, 1025, 2047, 2048} ELSE {256, 1023, 1024}
+As(n) == [i \in 1..n |-> 97]
+LKey(n) == As(n) \o <<47, 98>>                      \* a...a/b
+LTok(n) == As(n) \o <<126, 49, 98>>                 \* a...a~1b
+LadderDoc(n) == VObj(<< <<LKey(n), VObj(<< <<<<99>>, VArr(<<VNull, N1>>)>> >>)>>, <<As(n), N1>>, <<<<122>>, VArr(<<N1, VNull>>)>>, <<<<115>>, VStr(<<120>>)>> >>)
+LadderPtrs(n) == {<<47>> \o LTok(n), <<47>> \o LTok(n) \o <<47, 99>>, <<47>> \o LTok(n) \o <<47, 99, 47, 49>>, <<47>> \o As(n), <<47>> \o As(n + 1), <<47>> \o As(n) \o <<126>>, <<47>> \o As(n) \o <<126, 48>>,
+                  <<47, 122, 47>> \o LTok(n), <<47, 122, 47>> \o As(n), <<47, 115, 47>> \o LTok(n), <<47, 122, 47>> \o LTok(n) \o <<47, 120>>, <<47, 122, 47, 48, 47>> \o As(n)}
+LadderInit == \E n \in TokLens : doc = LadderDoc(n) /\ ptr \in LadderPtrs(n) /\ phase = 1
+Init == (doc \in Docs /\ ptr = <<>> /\ phase = 0) \/ LadderInit
 Grow == /\ phase = 0 /\ Len(ptr) < MaxLen /\ \E c \in Alpha : ptr' = Append(ptr, c)
         /\ UNCHANGED <<doc, phase>>
 Jump == /\ phase = 0 /\ ptr = <<>> /\ \E p \in LongPtrs \cup BigIndexPtrs : ptr' = p
@@ -33,7 +42,7 @@ CheckLookup ==
   /\ Assert(want = got, <<"C15: lookup transcription differs from RFC 6901", doc, ptr, want, got>>)
   /\ (Emit => PrintT(ToJson(<<"G", JV(doc), ptr, want # NoPath, IF want = NoPath THEN <<>> ELSE want, GetPointerImpl(doc, ptr, FALSE)>>)))
 CheckFind ==
-  ptr = <<>> =>
+  (ptr = <<>> \/ (phase = 1 /\ \E n \in TokLens : doc = LadderDoc(n) /\ ptr = <<47>> \o As(n))) =>
     \A path \in PathsOf(doc) :
        LET p == FindImpl(doc, path) IN
        /\ Assert(p = PointerTo(doc, path) /\ Resolve(doc, p) = path /\ ValidPointer(p), <<"C15: constructed pointer does not resolve back / is not canonical", doc, path, p>>)
